@@ -10,7 +10,7 @@ use std::ffi::OsString;
 
 pub static DEF: PropDef = PropDef {
     id: "C09",
-    rule: "random: trees of 1-10 entries with hostile names (blanks, newlines, quotes, backslashes, '{}', leading '-', '$()', glob characters, multi-byte) x one or two -exec/-execdir ... ; actions whose argument templates hold 0-4 arguments with 0-3 '{}' each (alone, embedded in text, adjacent, near-misses '{' '}' '{ }', empty arguments) x scripted exit statuses per invocation (0, 1..255, death by signal) x command {rec recorder, missing name, true/false, a file without execute permission, a directory, a path through a regular file} x position of the action (plain; '( -exec ; -printf T ) -o -printf F'; negated; behind a -type test; two actions in sequence so that the second runs only where the first succeeded). Run in process and (1 in 8) through the built binary. A second sub-run uses file names that are not valid UTF-8 (raw bytes 0x80-0xFF in a flat directory) with bare and embedded {} templates. Oracle: one record per entry on which the action is reached, in visit order and interleaved per file as the evaluation prescribes; argv == template with every {} replaced by the path (./basename for -execdir), byte for byte, one argv element per template argument; cwd == the harness cwd (-exec) or the entry's parent directory (-execdir); truth == (child status 0), observed through labelled -printf output; find's exit status 0 whatever the children do. Non-trivial = (a name contains a shell-special character and some template argument has >= 2 '{}') or a failing child changes the subsequent output. Distinct = distinct case JSON.",
+    rule: "random: trees of 1-10 entries with hostile names (blanks, newlines, quotes, backslashes, '{}', leading '-', '$()', glob characters, multi-byte) x one or two -exec/-execdir ... ; actions whose argument templates hold 0-4 arguments with 0-3 '{}' each (alone, embedded in text, adjacent, near-misses '{' '}' '{ }', empty arguments) x scripted exit statuses per invocation (0, 1..255, death by signal) x command {rec recorder, missing name, true/false, a file without execute permission, a directory, a path through a regular file} x position of the action (plain; '( -exec ; -printf T ) -o -printf F'; negated; behind a -type test; two actions in sequence so that the second runs only where the first succeeded). Run in process and (1 in 8) through the built binary. A second sub-run uses file names that are not valid UTF-8 (raw bytes 0x80-0xFF in a flat directory) with bare and embedded {} templates. Oracle: one record per entry on which the action is reached, in visit order and interleaved per file as the evaluation prescribes; argv == template with every {} replaced by the path (./basename for -execdir), byte for byte, one argv element per template argument; cwd == the harness cwd (-exec) or the entry's parent directory (-execdir); starting points are spelled c/r, ./c/r, c/r/, c//r, c/r/., c/r/./, c/up/../r, c/up/.. - for -execdir on a starting point whose spelling ends in '/', '.' or '..' both the textual view (directory = the text before the last component, name = that component) and the physical view (real parent directory, real name) are accepted, each as a (cwd, ./name) pair that names the entry; truth == (child status 0), observed through labelled -printf output; find's exit status 0 whatever the children do. Non-trivial = (a name contains a shell-special character and some template argument has >= 2 '{}') or a failing child changes the subsequent output. Distinct = distinct case JSON.",
     assumptions: &[
         "starting points are spelled c/r or ./c/r (for -execdir the starting point itself is run from its parent as ./r)",
         "the recorder's log and script travel in the environment, not in argv",
@@ -89,7 +89,7 @@ pub fn gen_case(g: &mut Gen) -> Case {
         2 => 255,
         _ => 256 + g.pick(&[15u16, 9, 10]),
     });
-    Case { tree: TreeSpec { nodes }, root: g.pick(&["c/r", "c/r", "./c/r"]).to_string(), actions, shape: g.below(4) as u8, script, binary: g.chance(1, 8), depth: g.chance(1, 5) }
+    Case { tree: TreeSpec { nodes }, root: g.pick(&["c/r", "c/r", "./c/r", "c/r/", "c//r", "c/r/.", "c/r/./", "c/up/../r", "c/up/.."]).to_string(), actions, shape: g.below(4) as u8, script, binary: g.chance(1, 8), depth: g.chance(1, 5) }
 }
 
 fn substitute(t: &str, path: &str) -> String {
@@ -108,6 +108,8 @@ pub fn check(ctx: &mut Ctx, c: &Case) -> Outcome {
     let _ = std::fs::remove_dir("adir");
     std::fs::write("noexec", b"#!/bin/sh\nexit 0\n").unwrap();
     let _ = std::fs::create_dir("adir");
+    // a sibling of the tree: starting points can be spelled through it ("c/up/../r", "c/up/..")
+    let _ = std::fs::create_dir("c/up");
     let wo = WalkOpts { follow: FollowMode::P, depth_first: c.depth, ..Default::default() };
     let (entries, _) = ref_paths(&c.root, &wo);
     // expression
@@ -169,7 +171,34 @@ pub fn check(ctx: &mut Ctx, c: &Case) -> Outcome {
     let used_actions: &[Action] = if c.shape == 2 { &c.actions[..1] } else { &c.actions[..] };
     // model
     let cwd_abs = ctx.root.to_string_lossy().into_owned();
-    let mut want_records: Vec<(String, Vec<String>)> = vec![]; // (cwd, args)
+    // per expected invocation the acceptable (cwd, args) pairs: one, except for -execdir on a
+    // starting point whose spelling ends in '/', '.' or '..' (see `execdir_views`)
+    let mut want_records: Vec<Vec<(String, Vec<String>)>> = vec![];
+    let canon = |d: &str| std::fs::canonicalize(if d.is_empty() { "." } else { d }).map(|x| x.to_string_lossy().into_owned()).unwrap_or_else(|_| format!("{cwd_abs}/{d}"));
+    // (working directory, "./name") pairs under which -execdir may present an entry: the textual split
+    // of the path as printed (directory = everything before the last component, '.' and '..' being
+    // components) and, for a starting point, the physical one (real parent directory, real name);
+    // both satisfy "the file's parent directory as working directory and the path given as ./basename"
+    let execdir_views = |p: &str, depth: usize| -> Vec<(String, String)> {
+        let t = p.trim_end_matches('/');
+        let (par, base) = match t.rfind('/') {
+            Some(i) => (&t[..i], &t[i + 1..]),
+            None => ("", t),
+        };
+        let mut v = vec![(canon(par), format!("./{base}"))];
+        if depth == 0 {
+            if p.ends_with('/') {
+                v.push((canon(par), format!("./{base}/")));
+            }
+            if let Ok(real) = std::fs::canonicalize(p) {
+                if let (Some(d), Some(n)) = (real.parent(), real.file_name()) {
+                    v.push((d.to_string_lossy().into_owned(), format!("./{}", n.to_string_lossy())));
+                }
+            }
+        }
+        v.dedup();
+        v
+    };
     let mut want_out: Vec<u8> = vec![];
     let mut rec_index = 0usize;
     let mut failing_changes_output = false;
@@ -180,19 +209,10 @@ pub fn check(ctx: &mut Ctx, c: &Case) -> Outcome {
         }
         let mut all_true = true;
         for a in used_actions {
-            let (sub_path, cwd) = if a.execdir {
-                let (par, base) = match p.rfind('/') {
-                    Some(i) => (&p[..i], &p[i + 1..]),
-                    None => ("", p.as_str()),
-                };
-                let par_abs = if par.is_empty() { cwd_abs.clone() } else { format!("{cwd_abs}/{}", par.trim_start_matches("./")) };
-                (format!("./{base}"), par_abs)
-            } else {
-                (p.clone(), cwd_abs.clone())
-            };
+            let views: Vec<(String, String)> = if a.execdir { execdir_views(p, e.depth) } else { vec![(cwd_abs.clone(), p.clone())] };
             let ok = match a.cmd {
                 0 => {
-                    want_records.push((cwd, a.template.iter().map(|t| substitute(t, &sub_path)).collect()));
+                    want_records.push(views.iter().map(|(cwd, sub_path)| (cwd.clone(), a.template.iter().map(|t| substitute(t, sub_path)).collect())).collect());
                     let st = c.script.get(rec_index).copied().unwrap_or(0);
                     rec_index += 1;
                     st == 0
@@ -271,15 +291,18 @@ pub fn check(ctx: &mut Ctx, c: &Case) -> Outcome {
     if got.len() != want_records.len() {
         return fail(format!("C09:number-of-runs-differs:{kinds}:shape{}", c.shape), desc());
     }
-    for (g, w) in got.iter().zip(&want_records) {
+    let odd_root = c.root.ends_with('/') || c.root.ends_with("/.") || c.root.ends_with("/..");
+    let kinds = if odd_root { format!("{kinds}:starting-point-ends-in-{}", if c.root.ends_with('/') { "slash" } else if c.root.ends_with("/..") { "dotdot" } else { "dot" }) } else { kinds };
+    for (g, alts) in got.iter().zip(&want_records) {
         let gargs: Vec<String> = g.args.iter().map(|a| lossy(a)).collect();
-        if gargs != w.1 {
-            let what = if gargs.len() != w.1.len() { "argv-element-count" } else { "substitution-or-argument-text" };
+        if alts.iter().any(|w| gargs == w.1 && lossy(&g.cwd) == w.0) {
+            continue;
+        }
+        if !alts.iter().any(|w| gargs == w.1) {
+            let what = if alts.iter().all(|w| gargs.len() != w.1.len()) { "argv-element-count" } else { "substitution-or-argument-text" };
             return fail(format!("C09:{what}:{kinds}"), desc());
         }
-        if lossy(&g.cwd) != w.0 {
-            return fail(format!("C09:working-directory:{kinds}"), desc());
-        }
+        return fail(format!("C09:working-directory:{kinds}"), desc());
     }
     if stdout != want_out {
         return fail(format!("C09:truth-value-or-order:{kinds}:shape{}", c.shape), desc());
